@@ -3,7 +3,7 @@
    Models: CssV.Upto.upto (= util.Base._tokensupto2) and CssV.Skeleton (statement dispatch of
    cssstylesheet / cssmediarule, declaration loop of cssstyledeclaration, CSSUnknownRule stack),
    following the repaired code (six fix: commits, see known_findings.d/C04.json).                 *)
-From CssV Require Import Base Tokenizer Upto UptoFacts Skeleton SkeletonFacts.
+From CssV Require Import Base Tokenizer Gen.UptoGen Upto UptoFacts Skeleton SkeletonFacts.
 
 (* _tokensupto2 returns a prefix (after the start token) and hands back the rest, which is
    strictly shorter whenever there was a token to read: the parser always progresses          *)
@@ -128,3 +128,138 @@ Example unknown_atrule_preserved_ex :
   /\ JunkStmt cls_sheet KUnknown unk_nested_at
   /\ unknown_rule unk_nested_at = Some (T "ATKEYWORD" "@unk", map UTok (tl unk_nested_at)).
 Proof. exact unknown_rule_examples. Qed.
+
+(* ------------------------------------------------------------------------------------------------
+   Extension round.
+   (a) Tie by translator: Gen/UptoGen.v is regenerated from util.py / cssstylesheet.py / cssmediarule.py /
+       cssstyledeclaration.py / cssstylerule.py on every run.  `mode_of` and `kmode` are DEFINED by lookup in the
+       generated tables (so every theorem above computes with the current source's `ends`, `endtypes`, initial
+       counters and handler flags); the hand-written counter ladders and dispatch functions are proved equal to
+       the generated chains / productions dicts.                                                              *)
+Theorem mode_table_generated :
+  map flag_name all_flags = gen_flags
+  /\ forallb (fun fl => match assoc_s (flag_name fl) gen_modes with Some _ => true | None => false end) all_flags = true
+  /\ length gen_modes = length all_flags.
+Proof. split; [exact flags_generated|exact modes_generated]. Qed.
+Print Assumptions mode_table_generated.
+
+Theorem counters_generated : forall c t,
+  bump c t = (if gen_ident_guard && is_ident t then c else ladder_apply gen_loop_ladder (val t) (is_function t) c)
+  /\ start_count c t = (if gen_ident_guard && is_ident t then c else ladder_apply gen_start_ladder (val t) (is_function t) c).
+Proof. intros; split; [apply bump_generated|apply start_count_generated]. Qed.
+Print Assumptions counters_generated.
+
+Theorem handler_flags_generated :
+  forallb (fun k => match kcall k with
+                    | Some (n, _) => match flag_of_name n with Some _ => true | None => false end
+                    | None => false end) all_kinds = true
+  /\ (call_of gen_media_calls (s "atrule") = Some ([], true) /\ call_of gen_media_calls (s "ruleset") = Some ([], true)
+      /\ forallb (fun k => match kcall k with Some ([], true) => true | _ => false end) sheet_kinds = true
+      /\ gen_media_head_calls = [(flag_name FMQEnd, false); (flag_name FBlockStart, false); (flag_name FMediaEnd, false)]
+      /\ gen_stylerule_calls = [(flag_name FBlockStart, false); (flag_name FBlockEnd, false)]).
+Proof. split; [exact handlers_generated|exact media_calls_generated]. Qed.
+Print Assumptions handler_flags_generated.
+
+Theorem dispatch_tables_generated :
+  (forallb (fun p => cls_agrees (cls_sheet (tok_of_type (fst p))) (snd p)) gen_sheet_prods = true
+   /\ forallb (fun y => cls_agrees (cls_sheet (tok_of_type y)) gen_sheet_default) other_types = true)
+  /\ gen_media_default = s "ruleset"
+  /\ gen_decl_prods = [(s "IDENT", s "ident"); (s "CHAR", s "char")] /\ gen_decl_default = s "unexpected".
+Proof.
+  split; [exact cls_sheet_generated|]. split; [apply cls_media_generated|].
+  split; apply cls_decl_generated.
+Qed.
+Print Assumptions dispatch_tables_generated.
+
+(* (b) The order state included.  `sheet_ord wf ts 0 st` = (statements and comments with their kept? flag, final
+   state) for any well-formedness oracle wf of the rule objects.  A junk statement that is discarded and whose kind
+   is neutral in the state reached after g1 leaves the state alone: everything behind it -- including @import /
+   @namespace / @charset rules, whose fate depends on the state -- is treated exactly as if it were absent.     *)
+Theorem junk_statement_skipped_order : forall wf g1 k junk g2 st,
+  Statements cls_sheet g1 -> JunkStmt cls_sheet k junk -> wf k junk = false ->
+  neutral k (snd (sheet_ord wf g1 0 st)) = true ->
+  sheet_ord wf (g1 ++ junk ++ g2) 0 st =
+  (let '(l1, e1) := sheet_ord wf g1 0 st in
+   let '(l2, e2) := sheet_ord wf g2 0 e1 in (l1 ++ (IStmt k junk, false) :: l2, e2)).
+Proof. exact junk_statement_skipped_order_lemma. Qed.
+Print Assumptions junk_statement_skipped_order.
+
+(* which kinds are neutral, computed from the handlers of the current source: rule sets, @import, @namespace and
+   @variables always (this is the fix "a discarded statement does not advance the order state"; on the tree before
+   it the first four conjuncts are false and this proof fails); unknown at-rules and @charset from state 1 on;
+   the containers @media/@page/@font-face only in state 3 (open finding C04-empty-container-kept)              *)
+Theorem order_neutral_kinds : forall st,
+  neutral KRuleset st = true /\ neutral KImport st = true /\ neutral KNamespace st = true
+  /\ neutral KVariables st = true
+  /\ ((1 <= st)%nat -> neutral KUnknown st = true /\ neutral KCharset st = true)
+  /\ (st = 3%nat -> neutral KMedia st = true /\ neutral KPage st = true /\ neutral KFontFace st = true).
+Proof. exact neutral_kinds. Qed.
+Print Assumptions order_neutral_kinds.
+
+Example junk_statement_skipped_order_ex :
+  sheet_ord wf_ex ((imp """a""" ++ [sp]) ++ junk_num ++ sp :: imp """b""") 0 0
+  = ([(IStmt KImport (imp """a"""), true); (IStmt KRuleset junk_num, false); (IStmt KImport (imp """b"""), true)], 1%nat)
+  /\ sheet_ord wf_ex ((imp """a""" ++ [sp]) ++ junk_fn ++ sp :: imp """b""") 0 0
+  = ([(IStmt KImport (imp """a"""), true); (IStmt KRuleset junk_fn, false); (IStmt KImport (imp """b"""), true)], 1%nat).
+Proof. exact order_example. Qed.
+
+(* (c) All modes, mediaqueryendonly included: inside a ( ) or [ ] group nothing can stop the loop, whatever the brace
+   counter; hence the run in front of the first top-level '{' (PreBrace: atoms on which the mode does not stop at
+   its initial counters -- for mediaqueryendonly: no STRING at depth 0 --, ( ) and [ ] groups of any balanced
+   content) is returned exactly, and the block behind it up to its '}'.                                       *)
+Theorem balanced_closed_any_mode : forall md x,
+  Balanced x -> forall c, inpar c -> closed md c x = true /\ after c x = c.
+Proof. exact balanced_closed_inpar. Qed.
+Print Assumptions balanced_closed_any_mode.
+
+Theorem upto_prebrace_run : forall fl br0 pre e rest,
+  c0 (mode_of fl None) = (br0, 0, 0)%Z -> PreBrace (mode_of fl None) pre ->
+  (is_eof e = true \/ stops (mode_of fl None) (bump (c0 (mode_of fl None)) e) e = true) ->
+  upto fl None (pre ++ e :: rest) = (pre ++ [e], rest).
+Proof. exact prebrace_upto. Qed.
+Print Assumptions upto_prebrace_run.
+
+Theorem upto_block_run : forall fl body c rest,
+  c0 (mode_of fl None) = (1, 0, 0)%Z -> mq (mode_of fl None) = false ->
+  Balanced body -> bclass_of c = BClose 0 -> is_eof c = false -> isendtok (mode_of fl None) c = true ->
+  upto fl None (body ++ c :: rest) = (body ++ [c], rest).
+Proof. exact block_upto. Qed.
+Print Assumptions upto_block_run.
+
+(* the rule-set split and the @media split (head in mediaqueryendonly mode, children in mediaendonly mode) *)
+Theorem ruleset_split_spec : forall sel lb body rb,
+  PreBrace (mode_of FBlockStart None) sel -> bclass_of lb = BOpen 0 -> is_eof lb = false ->
+  Balanced body -> bclass_of rb = BClose 0 -> is_eof rb = false ->
+  match sel ++ [lb] with t0 :: _ => starts (s "@") (val t0) = false | [] => False end ->
+  ruleset_split (sel ++ lb :: body ++ [rb]) = mkRS (sel ++ [lb]) (body ++ [rb]) None (Some (decl_block body)).
+Proof. exact ruleset_split_lemma. Qed.
+Print Assumptions ruleset_split_spec.
+
+Theorem media_split_spec : forall mqs lb body rb,
+  PreBrace (mode_of FMQEnd None) mqs -> bclass_of lb = BOpen 0 -> is_eof lb = false -> tyis lb "STRING" = false ->
+  Balanced body -> bclass_of rb = BClose 0 -> is_eof rb = false ->
+  media_split (mqs ++ lb :: body ++ [rb]) = mkMP (mqs ++ [lb]) [] (body ++ [rb]) None (Some (media_inner body)).
+Proof. exact media_split_lemma. Qed.
+Print Assumptions media_split_spec.
+
+Theorem media_with_junk : forall mqs lb g1 k junk g2 rb,
+  PreBrace (mode_of FMQEnd None) mqs -> bclass_of lb = BOpen 0 -> is_eof lb = false -> tyis lb "STRING" = false ->
+  Balanced (g1 ++ junk ++ g2) -> bclass_of rb = BClose 0 -> is_eof rb = false ->
+  Statements cls_media g1 -> JunkStmt cls_media k junk ->
+  mp_inner (media_split (mqs ++ lb :: (g1 ++ junk ++ g2) ++ [rb]))
+  = Some (media_inner g1 ++ [IStmt k junk] ++ media_inner g2).
+Proof. exact media_with_junk_lemma. Qed.
+Print Assumptions media_with_junk.
+
+(* (d) STRING / URI / HASH ... tokens whose value merely CONTAINS bracket or end characters are atoms of Balanced *)
+Theorem opaque_token_is_atom : forall t c1 c2 rest,
+  val t = c1 :: c2 :: rest -> is_function t = false -> bclass_of t = BAtom.
+Proof. exact opaque_token_atom. Qed.
+Print Assumptions opaque_token_is_atom.
+
+Example media_split_ex :
+  PreBrace (mode_of FMQEnd None) mq_ex /\ JunkStmt cls_media KRuleset rule_str
+  /\ mp_inner (media_split (mq_ex ++ c_ "{" :: ((rule_str ++ [sp]) ++ junk_fn ++ sp :: rule_b) ++ [c_ "}"]))
+     = Some [IStmt KRuleset rule_str; IStmt KRuleset junk_fn; IStmt KRuleset rule_b]
+  /\ bclass_of (T "STRING" """a{b;}""") = BAtom /\ bclass_of (T "URI" "url(x;})") = BAtom.
+Proof. split; [exact mq_ex_prebrace|]. split; [exact rule_str_stmt|]. exact media_split_example. Qed.
